@@ -89,7 +89,7 @@ CHECKS = {
         'assumptions': T_ASSUME,
     },
     'C03': {
-        'units': lambda t: [u_atoms(t, 0), u_atoms(t, 1), u_conv(t), u_core(t)],
+        'units': lambda t: [u_atoms(t, 0), u_atoms(t, 1), u_conv(t), u_core(t), plain_unit('u_c15', 'units/c15.cpp', t), plain_unit('u_c16', 'units/c16.cpp', t)],
         'rule': 'every library atom (ascii convenience rules, integer rules, raw_string, predicates, utf8::any, eol family, istring, bytes, everything) as root and '
                 'one level below each classical operator, all inputs over a per-family alphabet (length <=4..6) plus boundary numerals, on terminator-less '
                 'buffers with a PROT_NONE page directly after the input (pass 1) and directly before it (pass 2), eager and lazy; nested windows (rematch, minus) '
@@ -123,6 +123,44 @@ CHECKS = {
                 'node positions follow the prefix formula',
         'assumptions': T_ASSUME + ['node::subs_t of table rules lists all rules, so the compile-time leaf optimisation is exercised separately on static grammars'],
     },
+    'C14': {
+        'units': lambda t: [plain_unit('u_c14', 'units/c14.cpp', t)],
+        'engine': 'unit-domain',
+        'rule': 'all token strings over a 57-token JSON alphabet (structural characters, escapes, literal prefixes, number pieces, whitespace, control bytes, valid / overlong / surrogate / '
+                'truncated / out-of-range UTF-8 units) of length <=4 (thorough 5) and longer ones over reduced alphabets; all byte strings "b1..bk" for k<=3; all single (thorough: double) token '
+                'edits of 35 valid documents; oracle: independent set-valued recogniser for RFC 8259 + RFC 3629 (lang/json_ref.hpp); any exception is a violation; each case is repeated with a '
+                'poison tail behind the end',
+        'assumptions': ['lang/json_ref.hpp is RFC 8259 (cross-checked against python json on 25M strings during development)'],
+        'technique': 'exhaustive enumeration of bounded token strings on the real grammar against an independent language-exact recogniser',
+    },
+    'C20': {
+        'units': lambda t: [plain_unit('u_c20', 'units/c20.cpp', t)],
+        'engine': 'unit-domain',
+        'rule': 'all strings of length <=5 (thorough 6) over 22 character-class representatives against URI, URI-reference, absolute-URI, IPv4address, IPv6address; dotted octet-token strings in 6 '
+                'contexts; IPv6 token strings of <=8 (thorough 9) tokens; single (thorough: double) byte edits of 88 RFC corpus strings; oracle: set-valued (full backtracking) transcription of '
+                'RFC 3986 Appendix A (lang/uri_ref.hpp); parse_error counts as reject, any other exception is a violation',
+        'assumptions': ['lang/uri_ref.hpp is RFC 3986 Appendix A (cross-checked against a regex reference on 1.5M strings during development)'],
+        'technique': 'exhaustive enumeration of bounded strings on the real grammar against an independent language-exact matcher',
+    },
+    'C15': {
+        'units': lambda t: [plain_unit('u_c15', 'units/c15.cpp', t)],
+        'engine': 'unit-domain',
+        'rule': 'all digit strings up to one digit beyond the width for 8/16-bit targets (length <=4 / <=6, thorough 5 / 7), boundary neighbourhoods (limit +-2 (thorough +-100), powers of ten '
+                '+-1, with a digit appended / prepended / replaced) for 32/64-bit, x sign {none,+,-} (plus malformed prefixes) x trailer {end, letter, punctuation, NUL, 0xb0}, '
+                'for 383 rule/action/type/Maximum families (unsigned_rule, signed_rule, *_with_action, maximum_rule<T,Max> ... for 8 integer types and 16-19 Maximum values); '
+                'direct and inside seq<R,eof> / seq<R,one<x>>; oracle: syntax and exact value by unsigned __int128 arithmetic, overflow reported the documented way',
+        'assumptions': ['oracle functions orc_* in units/c15.cpp, written from the header comments and doc/Contrib-and-Examples.md'],
+        'technique': 'exhaustive enumeration of numerals x configurations on the real code against arbitrary-precision arithmetic',
+    },
+    'C16': {
+        'units': lambda t: [plain_unit('u_c16', 'units/c16.cpp', t)],
+        'engine': 'unit-domain',
+        'rule': 'all strings over {Open, Marker, Close, LF, CR, x} of length <=10 (thorough 12) for raw_string<[,=,]>, with a content rule, and with custom characters; length <=8 (thorough 10) for '
+                'the other four eol policies and lazy tracking; an all-levels family (levels 0..40, thorough 0..300) x content templates x tails; three parse runs each (action/required, '
+                'action/optional, no action); oracle: independent Lua long-bracket scanner (result, consumed, content span, one action call, cursor restored on failure)',
+        'assumptions': ['oracle functions orc_* in units/c16.cpp, written from the Lua manual text'],
+        'technique': 'exhaustive enumeration of bracket strings on the real code against an independent scanner',
+    },
     'C19': {
         'units': lambda t: [plain_unit('u_c19', 'units/c19.cpp', t, tier_arg='thorough')],
         'engine': 'unit-domain',
@@ -143,7 +181,7 @@ CHECKS = {
         'assumptions': T_ASSUME + ['UTF-16/32 and multi-byte binary rules excluded as documented by the library'],
     },
     'C02': {
-        'units': lambda t: [u_core(t), u_conv(t), u_exc(t, 0), u_act(t, 0), u_atoms(t, 0), u_atoms(t, 1)],
+        'units': lambda t: [u_core(t), u_conv(t), u_exc(t, 0), u_act(t, 0), u_atoms(t, 0), u_atoms(t, 1), plain_unit('u_c15', 'units/c15.cpp', t), plain_unit('u_c16', 'units/c16.cpp', t)],
         'rule': 'cursor (pointer, byte, line, column) compared before/after every Control<Rule>::match invocation, internal rules included, in every '
                 'execution of the core, convenience, exception and action spaces',
         'assumptions': T_ASSUME,
